@@ -6,7 +6,7 @@ import random
 from harness import world, qobs, mtrace, traces as tr
 
 LEVEL = "model_checking"
-NOFUZZY = ["term", "every", "null", "prefix", "wildcard", "termrange", "numrange", "phrase", "and", "or",
+NOFUZZY = ["term", "every", "null", "prefix", "wildcard", "regex", "termrange", "numrange", "phrase", "and", "or",
            "dismax", "andnot", "andmaybe", "require", "not", "const"]
 
 
